@@ -11,3 +11,5 @@ cd /verif
 rc=$?
 git -C /repo checkout -- .
 echo "exit=$rc (after reverting $C for $P)"
+# regenerate the generated model part from the restored tree
+(cd /verif/harness && /verif/run/bin/gen -repo /repo -out /verif/lean/Rend/Gen >/dev/null 2>&1)
